@@ -12,6 +12,7 @@ import (
 	"sync/atomic"
 	"testing"
 
+	"github.com/pingcap/failpoint"
 	"github.com/tikv/client-go/v2/kv"
 	"github.com/tikv/client-go/v2/txnkv/transaction"
 	"github.com/tikv/client-go/v2/verif/ev"
@@ -218,10 +219,15 @@ func TestMonitorHeartBeats(t *testing.T) {
 	old := atomic.LoadUint64(&transaction.ManagedLockTTL)
 	atomic.StoreUint64(&transaction.ManagedLockTTL, 40)
 	defer atomic.StoreUint64(&transaction.ManagedLockTTL, old)
+	// prewrite locks ask for a 1 ms ttl (the store keeps the larger ttl of the pessimistic lock they replace), so
+	// that only the heart-beats keep the primary alive while the secondaries' ttl runs out
+	sim.EnableFailpoints()
+	_ = failpoint.Enable("tikvclient/twoPCShortLockTTL", "return")
+	defer failpoint.Disable("tikvclient/twoPCShortLockTTL")
 	rapid.Check(t, func(t *rapid.T) {
-		backend := rapid.SampledFrom([]sim.Backend{sim.Mock, sim.Uni}).Draw(t, "backend")
+		backend := rapid.SampledFrom([]sim.Backend{sim.Mock, sim.Uni, sim.Uni, sim.Uni}).Draw(t, "backend")
 		keys := []string{"a", "b", "c"}
-		steps := []*sim.Step{{Txn: 0, Op: "begin", Client: 0, Pessimistic: true, Async: rapid.Bool().Draw(t, "async")}}
+		steps := []*sim.Step{{Txn: 0, Op: "begin", Client: 0, Pessimistic: true, Async: rapid.IntRange(0, 3).Draw(t, "async") != 0}}
 		for i := rapid.IntRange(1, 3).Draw(t, "nlocks"); i > 0; i-- {
 			k := rapid.SampledFrom(keys).Draw(t, "k")
 			if rapid.Bool().Draw(t, "write") {
@@ -233,11 +239,11 @@ func TestMonitorHeartBeats(t *testing.T) {
 		}
 		steps = append(steps, &sim.Step{Op: "sleep", Ms: int64(rapid.IntRange(60, 120).Draw(t, "open"))})
 		end := &sim.Step{Txn: 0, Op: rapid.SampledFrom([]string{"commit", "commit", "rollback"}).Draw(t, "end")}
-		if end.Op == "commit" && rapid.Bool().Draw(t, "park") {
+		if end.Op == "commit" && rapid.IntRange(0, 3).Draw(t, "park") != 0 {
 			// while the request is parked the owner keeps beating; optionally another client then reads the keys: the
 			// secondaries' own ttl (never refreshed) has run out by then, the heart-beaten primary is alive
 			nested := []*sim.Step{{Op: "sleep", Ms: 65}}
-			if rapid.Bool().Draw(t, "reader") {
+			if rapid.IntRange(0, 3).Draw(t, "reader") != 0 {
 				nested = append(nested, &sim.Step{Txn: 9, Op: "begin", Client: 1}, &sim.Step{Txn: 9, Op: "batchget", Keys: keys}, &sim.Step{Txn: 9, Op: "rollback"})
 			}
 			end.Faults = []sim.FaultSpec{{Type: rapid.SampledFrom([]string{"Prewrite", "Prewrite", "Commit"}).Draw(t, "ptype"), Index: rapid.IntRange(0, 1).Draw(t, "pidx"), Action: rapid.SampledFrom([]string{"gateBefore", "gateAfter"}).Draw(t, "pwhen"), Nested: &sim.Step{Op: "seq", Sub: nested}}}
